@@ -128,7 +128,14 @@ MatHist2 ==
       s \in {nA, nB}, p \in {"none", "ca1", "ca2"} }
 MatAll == MatHist("inline", "inline") \cup MatHist("file", "file") \cup MatHist("file", "inline") \cup MatHist("inline", "file")
           \cup MatHist("sds", "sds") \cup MatHist2
-HistAll == HistCases \cup InspHist(TRUE) \cup InspHist(FALSE) \cup MatAll
+(* an SDS rotation racing with a config update of the same SDS backed context *)
+RaceSrvOf(rots, cus) ==
+  { [side |-> "srv", ctxs |-> <<M({nA}, TRUE, FALSE, "ca1", "sds", "sds")>>, upds |-> <<rot, cu>>, race |-> TRUE,
+     insp |-> FALSE, first |-> "tls", hello |-> H(nA, FALSE, {}, p, 12)] :
+      rot \in rots, cu \in cus, p \in {"none", "ca1", "ca2"} }
+RaceSrv == RaceSrvOf({ UH(1, "names", {nB}, "push") }, { UH(1, "require", TRUE, "cfg"), UH(1, "verify", FALSE, "cfg") })
+           \cup RaceSrvOf({ UH(1, "ca", "ca2", "push") }, { UH(1, "require", TRUE, "cfg") })
+HistAll == HistCases \cup InspHist(TRUE) \cup InspHist(FALSE) \cup MatAll \cup RaceSrv
 
 QuickSrv(x) == SelCases(QuickProfiles, 3, QuickSnis, QuickAlpns, {12, 13}) \cup AuthCases({12, 13}) \cup InspCases \cup HistAll
 ThoroughSrv(x) == SelCases(ThoroughProfiles, 3, ThoroughSnis, ThoroughAlpns, {12, 13}) \cup AuthCases({12, 13}) \cup InspCases \cup HistAll
@@ -150,9 +157,18 @@ UpMat(cas) ==
      cert |-> [names |-> {nUp}, ca |-> cca, expired |-> FALSE]] :
       cca \in {"ca1", "ca2"}, us \in CaUpds(0, cas, "ca2", "ca1") }
 
+RaceUpOf(rots, ccas) ==
+  { [side |-> "up", cfg |-> [sn |-> nUp, skip |-> TRUE, ca |-> "ca1", casrc |-> "sds", capath |-> 1], upds |-> <<rot, cu>>, race |-> TRUE,
+     cert |-> [names |-> {nUp}, ca |-> cca, expired |-> FALSE]] :
+      rot \in rots, cu \in { UH(0, "skip", FALSE, "cfg") }, cca \in ccas }
+RaceUp == RaceUpOf({ UH(0, "cert", 1, "push") }, {"ca1", "ca2"}) \cup RaceUpOf({ UH(0, "ca", "ca2", "push") }, {"ca2"})
+
 AllUp == { [side |-> "up", cfg |-> [sn |-> sn, skip |-> sk, ca |-> ca], upds |-> <<>>,
             cert |-> [names |-> {nUp}, ca |-> cca, expired |-> ex]] :
              sn \in {<<>>, nUp, nOther}, sk \in BOOLEAN, ca \in {"ca1", "ca2"},
              cca \in {"ca1", "ca2", "self"}, ex \in BOOLEAN }
-         \cup UpHist(TRUE) \cup UpHist(FALSE) \cup UpMat("inline") \cup UpMat("file") \cup UpMat("sds")
+         \cup UpHist(TRUE) \cup UpHist(FALSE) \cup UpMat("inline") \cup UpMat("file") \cup UpMat("sds") \cup RaceUp
+(* only the race cases: the schedule enumeration run *)
+RaceOnlySrv == RaceSrv
+RaceOnlyUp == RaceUp
 ====
